@@ -168,7 +168,10 @@ async fn read_headers(
 ) -> Result<(), Error> {
     loop {
         let buf = read_line(socket).await?;
-        let buf = buf.trim_end();
+        // only the empty line ends the head; a line of blanks is a malformed header line, and
+        // taking it for the end would hand the header lines behind it to the tunnel
+        let buf = buf.strip_suffix('\n').unwrap_or(&buf);
+        let buf = buf.strip_suffix('\r').unwrap_or(buf);
         trace!("header={:?}", buf);
         if buf.is_empty() {
             return Ok(());
